@@ -205,7 +205,7 @@ var Names = []string{"a", "b", "c", "d", "alpha", "beta", "ärger"}
 
 // Subs[:2] are the everyday subtypes; the rest are legal oddities (a case
 // variant of s1, a percent sign, an equals sign) drawn rarely.
-var Subs = []string{"s1", "s2", "s3", "S1", "p%d", "k=v", "k"}
+var Subs = []string{"s1", "s2", "s3", "S1", "p%d", "k=v", "k", "t "}
 
 func spellName(n string, sp int) (field, tagName string) {
 	rs := []rune(n)
